@@ -97,7 +97,7 @@ CHECKS = {
     "C13": {
         "scenarios": [{"name": "admission"}, {"name": "ledger"}, {"name": "avgwindow"}],
         "accept": ["admission:"],
-        "technique": "Lean: outcome of a single-conversion batch equals the rule table for all pairs, heights, rates, averages and balances; corollaries per rule and the converse (admissible and funded = executed); regenerated one-way set, guard and reject codes. Tie: applyTransactionBatch (hook) over pairs x heights around every activation x rate/average patterns vs the model and the table; lock-step chains with runs of zero (out-of-band) quotes around ungraded blocks under PIP-10, with the availability rule stated on the recorded rates (no executed conversion on an asset with fewer than AverageRequired non-zero quotes among the last AveragePeriod rated heights)",
+        "technique": "Lean: average_available_iff_window_has_quotes — along every in-order chain without window holes the average of an asset is unavailable exactly when the height window of the committed rate table holds fewer than AverageRequired non-zero quotes of it, else it is their mean; Lean: outcome of a single-conversion batch equals the rule table for all pairs, heights, rates, averages and balances; corollaries per rule and the converse (admissible and funded = executed); regenerated one-way set, guard and reject codes. Tie: applyTransactionBatch (hook) over pairs x heights around every activation x rate/average patterns vs the model and the table; lock-step chains with runs of zero (out-of-band) quotes around ungraded blocks under PIP-10, with the availability rule stated on the recorded rates (no executed conversion on an asset with fewer than AverageRequired non-zero quotes among the last AveragePeriod rated heights)",
         "assumptions": ["PEG-destination rule from 2.0 lives in the holding path (ValidatePegTx) and is exercised by the lock-step chains"],
         "design_ref": "DESIGN.md §7 C13",
     },
